@@ -79,7 +79,7 @@ def check(run):
         r = run.tlc_must_pass("MC_Limiter", "hist_run.cfg", workers=1, heap="4g", timeout=1800, simulate="num=%d" % nh, depth=160,
                               defines={"hist_run.cfg": cfgtext}, name="Limiter_hist_" + tag)
         cases = os.path.join(run.work, "c13_hist_%s.ndjson" % tag)
-        n = core.write_cases(core.parse_cases(r["out"], tag="HIST"), cases)
+        n = core.write_cases(core.dedupe_histories(core.parse_cases(r["out"], tag="HIST")), cases)
         if n == 0:
             raise core.Inconclusive("no histories generated")
         outp = os.path.join(run.work, "c13_histout_%s.txt" % tag)
